@@ -31,7 +31,8 @@ ASSUMPTIONS = ["one actor runs at a time (sequentially consistent interleavings 
                "preemption points are the instructions of router.py/location_table.py that read or write attributes or subscripts, call, compare, test membership, enter a function or close a loop iteration (a superset of where CPython 3.12 hands over the GIL)",
                "a started timer may expire at any later instant until cancel() has been called (threading.Timer semantics)"]
 REQUIRED_COUNTERS = ["schedules", "preempted_schedules", "timer_fired_between", "sn.judged", "cbf.instances_judged", "cbf.cancel_vs_expiry_races", "cbf.rebuffered_after_cancellation_judged",
-                     "pv.judged", "ls.requests_judged", "ls.reply_vs_request_races", "lock_waits"]
+                     "pv.judged", "ls.requests_judged", "ls.reply_vs_request_races", "lock_waits",
+                     "ls.executions_with_a_refused_ls_request_frame"]
 
 LAT, LON = 415000000, 21000000
 _INS = None
@@ -526,6 +527,9 @@ def shards(tier, seed):
         for i in range(n_scn):
             # every tier has one CBF scenario of the buffered-cancelled-buffered-again kind
             spec = gen_scenario(rng, fam, force_rebuffer=(i == 0) if fam == "cbf" else None)
+            if fam == "ls" and i == 0:
+                # every tier has one location-service scenario in which the interface refuses one LS Request frame
+                spec["refuse_ls_frame"] = spec.get("refuse_ls_frame") or rng.choice((1, 2))
             for mode, nsh in NSHARD[tier].items():
                 for sh in range(nsh):
                     out.append({"spec": spec, "mode": mode, "shard": sh, "nshards": nsh, "tier": tier, "seed": seed * 1000 + i})
